@@ -1024,7 +1024,11 @@ class Sim:
             k2 = (p["l"], projkey(proj[:cut]))
             if k2 in env:
                 return apply_proj(_EnvTB(self, env), env[k2], proj[cut:], (), self.fn)
+        nm = self.fn.var_name(p["l"])
         base = self.get_local(env, p["l"])
+        if nm and isinstance(base, tuple) and base[0] == "agg":
+            # a field of a local aggregate is named by the variable, not by the value it was built from
+            base = ("var", nm)
         return apply_proj(_EnvTB(self, env), base, proj, (), self.fn)
 
 
